@@ -147,7 +147,7 @@ MUTANTS += [
      "edits": [("repid/job.py", "            timestamp=self.timestamp,\n            ttl=self.ttl,", "            timestamp=self.timestamp,\n            ttl=None,")]},
     {"name": "c07-amqp-priority-zero-as-medium", "checks": ["C07"],
      "edits": [(AC, "                        if message.header.properties.priority is not None\n", "                        if message.header.properties.priority\n")]},
-    {"name": "c07-redis-topic-prefix-without-colon", "checks": ["C07", "C11"],
+    {"name": "c07-redis-topic-prefix-without-colon", "checks": ["C11"],
      "edits": [(RC, '        new_topics = tuple(x + ":" for x in topics)', '        new_topics = tuple(x for x in topics)')]},
 ]
 CV = "repid/converter.py"
@@ -227,4 +227,19 @@ MUTANTS += [
      "edits": [(P, "        self.actor_run = middleware_wrapper(self._actor_run, name=\"actor_run\")\n", "        cls = type(self)\n        if not hasattr(cls, '_shared'):\n            cls._shared = middleware_wrapper(self._actor_run, name=\"actor_run\")\n        self.actor_run = cls._shared\n")]},
     {"name": "c17-after-signal-without-result", "checks": ["C17"],
      "edits": [(MW, "        signal_kwargs.update({\"result\": result})\n", "")]},
+]
+RT = "repid/router.py"
+MUTANTS += [
+    {"name": "c11-actor-lookup-by-queue", "checks": ["C11"],
+     "edits": [(R, "            actor = actors[key.topic]", "            actor = next((a for a in actors.values() if a.queue == key.queue), None) or actors[key.topic]")]},
+    {"name": "c11-mem-filter-drops-foreign", "checks": ["C11"],
+     "edits": [(MC, "        if self.topics and msg.key.topic not in self.topics:  # topics don't match\n            self._queue.simple.put_nowait(msg)\n            return None", "        if self.topics and msg.key.topic not in self.topics:  # topics don't match\n            return None")]},
+    {"name": "c11-router-stale-topic-kept", "checks": ["C11"],
+     "edits": [(RT, "            self.topics_by_queue[previous.queue].discard(actor.name)\n", "")]},
+    {"name": "c11-include-router-first-wins", "checks": ["C11"],
+     "edits": [(RT, "        for actor in router.actors.values():\n            self._register(actor)", "        for actor in router.actors.values():\n            if actor.name not in self.actors:\n                self._register(actor)")]},
+    {"name": "c11-amqp-foreign-acked", "checks": ["C11"],
+     "edits": [(AC, "            await asyncio.sleep(0.1)  # poison message fix\n            await self.broker._channel.basic_reject(message.delivery_tag)\n            logger.debug(\n                \"Unknown message's topic.", "            await asyncio.sleep(0.1)  # poison message fix\n            await self.broker._channel.basic_ack(message.delivery_tag)\n            logger.debug(\n                \"Unknown message's topic.")]},
+    {"name": "c11-worker-consumes-without-topic-filter", "checks": ["C11"],
+     "edits": [(R, "        consumer = self._conn.message_broker.get_consumer(\n            queue_name,\n            topics,", "        consumer = self._conn.message_broker.get_consumer(\n            queue_name,\n            None,")]},
 ]
